@@ -231,11 +231,14 @@ theorem selectSpec_abs (id : String) (md : Trans.EntityDescriptor) (r : Trans.Au
         cases List.find? (fun p => p.snd.Location == r.AssertionConsumerServiceURL) (pairs md) <;> simp
 
 /-! non-vacuity: a registry entry with two endpoints; the request names the second by URL -/
+def exEP (loc : String) (idx : Int) (dflt : Option Bool) : Trans.IndexedEndpoint :=
+  { (default : Trans.IndexedEndpoint) with Binding := "urn:oasis:names:tc:SAML:2.0:bindings:HTTP-POST", Location := loc, Index := idx, IsDefault := dflt }
+def exD : Trans.SPSSODescriptor :=
+  { (default : Trans.SPSSODescriptor) with AssertionConsumerServices := [exEP "https://sp/acs0" 0 none, exEP "https://sp/acs1" 1 (some true)] }
 def exMD : Trans.EntityDescriptor :=
-  { EntityID := "sp", SPSSODescriptors := [⟨[⟨"urn:oasis:names:tc:SAML:2.0:bindings:HTTP-POST", "https://sp/acs0", 0, none⟩,
-                                              ⟨"urn:oasis:names:tc:SAML:2.0:bindings:HTTP-POST", "https://sp/acs1", 1, some true⟩]⟩] }
+  { (default : Trans.EntityDescriptor) with EntityID := "sp", SPSSODescriptors := [exD] }
 def exReq (url idx : String) : Trans.AuthnRequest :=
-  { Version := "2.0", IssueInstant := 0, Destination := "", Issuer := some ⟨"sp"⟩, AssertionConsumerServiceIndex := idx, AssertionConsumerServiceURL := url }
+  { (default : Trans.AuthnRequest) with Version := "2.0", Issuer := some ⟨"sp"⟩, AssertionConsumerServiceIndex := idx, AssertionConsumerServiceURL := url }
 example : (selectSpec exMD (exReq "https://sp/acs1" "")).map (·.2.Location) = some "https://sp/acs1" := by decide
 example : (selectSpec exMD (exReq "" "")).map (·.2.Location) = some "https://sp/acs1" := by decide
 example : (selectSpec exMD (exReq "https://evil/acs" "")) = none := by decide
